@@ -43,12 +43,40 @@ def _write_replay(prop, bucket, regress=False):
 
 
 AMBIENT_ENV = {'VERIF_AMBIENT': '1', 'TZ': 'Pacific/Kiritimati', 'PYTHONWARNINGS': 'default'}
-AMBIENT_SETTINGS = ('python -O (asserts compiled away), TZ=Pacific/Kiritimati (UTC+14), node under LC_ALL=ar_EG.UTF-8, and around every library call made through '
-                    'vlib.lib.call: decimal context prec=6 ROUND_FLOOR / prec=3 ROUND_UP alternating, warnings raised as errors')
+AMBIENT_SETTINGS = ('python -O (asserts compiled away), TZ=Pacific/Kiritimati (UTC+14), a working directory holding decoy files named like the library\'s data files, '
+                    'today\'s date five years on, node under LC_ALL=ar_EG.UTF-8, and around every library call made through '
+                    'vlib.lib.call: decimal context prec=6 ROUND_FLOOR / prec=3 ROUND_UP (by a hash of the call), warnings raised as errors, sys.stderr = None')
 
 
 def _ambient_cmd(prop, extra):
     return [sys.executable, '-O', '-m', 'vlib.run', prop] + extra
+
+
+def _decoy_dir(out):
+    """The ambient child's working directory: holds files named like the library's own data files (every *.json under the
+    package) but with other numbers in them - a library that looks for its data relative to the current directory finds these."""
+    d = os.path.join(out, 'cwd')
+    os.makedirs(d, exist_ok=True)
+
+    def scale(x):
+        if isinstance(x, float):
+            return round(x * 0.5, 4)
+        if isinstance(x, list):
+            return [scale(v) for v in x]
+        if isinstance(x, dict):
+            return {k: scale(v) for k, v in x.items()}
+        return x
+    for root, _dirs, files in os.walk(os.path.join(REPO, 'athlib')):
+        for fn in files:
+            if fn.endswith('.json'):
+                try:
+                    with open(os.path.join(root, fn)) as f:
+                        doc = json.load(f)
+                    with open(os.path.join(d, fn), 'w') as f:
+                        json.dump(scale(doc), f)
+                except Exception:
+                    pass
+    return d
 
 
 def _is_ambient_child():
@@ -63,7 +91,8 @@ def start_ambient(prop, tier, seed):
     out = tempfile.mkdtemp(prefix='athlib-ambient-%s-' % prop, dir='/dev/shm' if os.path.isdir('/dev/shm') else None)
     env = dict(os.environ, **AMBIENT_ENV)
     env['VERIF_OUT'] = out
-    p = subprocess.Popen(_ambient_cmd(prop, ['--tier', tier, '--seed', str(seed)]), cwd=VERIF, env=env,
+    cwd = _decoy_dir(out)
+    p = subprocess.Popen(_ambient_cmd(prop, ['--tier', tier, '--seed', str(seed)]), cwd=cwd, env=env,
                          stdout=subprocess.PIPE, stderr=subprocess.STDOUT, text=True, start_new_session=True)
     return p, out
 
@@ -113,7 +142,14 @@ def do_replay(prop, path):
     if doc.get('ambient') and not _is_ambient_child():
         # found under the ambient settings: replayed under them (a child interpreter with the same flags and environment)
         import subprocess
-        r = subprocess.run(_ambient_cmd(prop, ['--replay', os.path.abspath(path)]), cwd=VERIF, env=dict(os.environ, **AMBIENT_ENV))
+        import tempfile
+        import shutil
+        out = tempfile.mkdtemp(prefix='athlib-ambient-replay-', dir='/dev/shm' if os.path.isdir('/dev/shm') else None)
+        try:
+            r = subprocess.run(_ambient_cmd(prop, ['--replay', os.path.abspath(path)]), cwd=_decoy_dir(out),
+                               env=dict(os.environ, **AMBIENT_ENV))
+        finally:
+            shutil.rmtree(out, ignore_errors=True)
         return r.returncode
     if doc.get('ambient') and doc.get('signature') and doc['signature'][-1] == 'under-ambient-settings':
         doc['signature'] = doc['signature'][:-1]
